@@ -486,7 +486,7 @@ theorem quot_lt_expMax (f : Fmt) (a : Nat) (ha : a < f.infBits) : a / 2 ^ f.frac
   exact (Nat.div_lt_iff_lt_mul (F_pos f)).2 ha
 
 /-- `ulp` on a finite positive pattern is the last line of the Python function -/
-theorem ulp_pos (f : Fmt) (h : WF f) (a : Nat) (h0 : a ≠ 0) (ha : a < f.infBits) : ulp f a = ulpPos f a := by
+theorem ulp_pos (f : Fmt) (h : WF f) (a : Nat) (h0 : a ≠ 0) (ha : a < f.infBits) : ulpOld f a = ulpPos f a := by
   have hF := F_pos f
   have hinf := infBits_add f h
   have hlt : a < f.signBit := by omega
@@ -497,7 +497,7 @@ theorem ulp_pos (f : Fmt) (h : WF f) (a : Nat) (h0 : a ≠ 0) (ha : a < f.infBit
   have hd := decode_finite f h a hfin
   rw [hmag, hs] at hd
   have hlt0 : pyLt0 f a = false := by unfold pyLt0; simp [hs]
-  unfold ulp
+  unfold ulpOld
   simp only [hd, hlt0]
   split
   · next hq =>
@@ -542,7 +542,7 @@ theorem frexpExp_sub (f : Fmt) (h : WF f) (a : Nat) (h0 : a ≠ 0) (hs : a < 2 ^
   rw [if_neg h0]
 
 /-- **the defect**: for every positive subnormal pattern `ldexp` underflows and `ulp` returns `+0` -/
-theorem ulp_sub_zero (f : Fmt) (h : WF f) (a : Nat) (h0 : a ≠ 0) (hs : a < 2 ^ f.fracBits) : ulp f a = 0 := by
+theorem ulp_sub_zero (f : Fmt) (h : WF f) (a : Nat) (h0 : a ≠ 0) (hs : a < 2 ^ f.fracBits) : ulpOld f a = 0 := by
   have h3 := minNormal_le_inf f h
   rw [ulp_pos f h a h0 (by omega)]
   unfold ulpPos ldexpOne negep
@@ -591,7 +591,7 @@ theorem magVal_ldexpOne (f : Fmt) (h : WF f) (n : Nat) (hn : n + 1 < f.expMax + 
       exact Nat.mul_lt_mul_of_pos_right (by omega) hF
 
 theorem ulp_normal' (f : Fmt) (h : WF f) (a : Nat) (hn : 2 ^ f.fracBits ≤ a) (ha : a < f.infBits) :
-    magVal f (ulp f a) = 2 ^ (a / 2 ^ f.fracBits - 1) ∧ ulp f a < f.infBits := by
+    magVal f (ulpOld f a) = 2 ^ (a / 2 ^ f.fracBits - 1) ∧ ulpOld f a < f.infBits := by
   have hF := F_pos f
   have hq := quot_lt_expMax f a ha
   have hq1 : 1 ≤ a / 2 ^ f.fracBits := (Nat.le_div_iff_mul_le hF).2 (by simpa using hn)
@@ -647,17 +647,17 @@ theorem decode_zero (f : Fmt) (h : WF f) : decode f 0 = .fin false 0 f.emin := b
   have : (0 : Nat) ≠ f.expMax := by unfold Fmt.expMax; omega
   simp [this]
 
-theorem ulp_zero' (f : Fmt) (h : WF f) : ulp f 0 = 1 := by
-  unfold ulp; rw [decode_zero f h]; simp [V.isZero]
+theorem ulp_zero' (f : Fmt) (h : WF f) : ulpOld f 0 = 1 := by
+  unfold ulpOld; rw [decode_zero f h]; simp [V.isZero]
 
-theorem ulp_abs (f : Fmt) (h : WF f) (b : Nat) (hb : b < 2 ^ f.width) : ulp f b = ulp f (magBits f b) := by
+theorem ulp_abs (f : Fmt) (h : WF f) (b : Nat) (hb : b < 2 ^ f.width) : ulpOld f b = ulpOld f (magBits f b) := by
   rcases sign_mag_cases f h b hb with ⟨hs, hmag, hlt⟩ | ⟨hs, hmag, hlt⟩
   · rw [hmag]
   · obtain ⟨hz, hi, hn⟩ := decode_mag f h b
     have hs' := sign_of_lt f _ hlt
     have hneg : negBits f b = magBits f b := by unfold negBits; simp [hs]
     have hlt0 : pyLt0 f (magBits f b) = false := by unfold pyLt0; simp [hs']
-    unfold ulp
+    unfold ulpOld
     simp only [hz, hi, hn, hlt0, hneg]
     by_cases c1 : (decode f (magBits f b)).isZero = true
     · simp [c1]
@@ -671,7 +671,7 @@ theorem ulp_abs (f : Fmt) (h : WF f) (b : Nat) (hb : b < 2 ^ f.width) : ulp f b 
             unfold pyLt0 isNaNBits; rw [hn]; simp [c3, hs, hne]
           simp [c1, c2, c3, this]
 
-theorem ulp_neg' (f : Fmt) (h : WF f) (b : Nat) (hb : b < 2 ^ f.width) : ulp f (negBits f b) = ulp f b := by
+theorem ulp_neg' (f : Fmt) (h : WF f) (b : Nat) (hb : b < 2 ^ f.width) : ulpOld f (negBits f b) = ulpOld f b := by
   obtain ⟨hnb, hm, _⟩ := negBits_spec f h b hb
   rw [ulp_abs f h _ hnb, hm, ← ulp_abs f h b hb]
 
@@ -705,7 +705,7 @@ theorem magVal_small (f : Fmt) (a : Nat) (ha : a < 2 ^ f.fracBits) : magVal f a 
 /-- `x ≥ 0`, zero or normal, below max: the exact sum `x + ulp x` is the value of the upper neighbour -/
 theorem ulp_next' (f : Fmt) (h : WF f) (x : Nat) (hx : x < 2 ^ f.width) (hfin : isFiniteBits f x = true)
     (hge : pyLt0 f x = false) (hcls : magBits f x = 0 ∨ f.minNormalBits ≤ magBits f x) (hmax : x ≠ f.maxBits) :
-    sval f (nextUp f x) = sval f x + sval f (ulp f x) := by
+    sval f (nextUp f x) = sval f x + sval f (ulpOld f x) := by
   have hF := F_ge2 f h
   have hinf := infBits_add f h
   have h3 := minNormal_le_inf f h
@@ -741,7 +741,7 @@ theorem magVal_infBits (f : Fmt) (h : WF f) : magVal f f.infBits = 2 ^ f.fracBit
 
 /-- at `max` the exact sum is `2^(emax+1)` (in units of `2^emin`), above every finite value -/
 theorem ulp_next_max' (f : Fmt) (h : WF f) :
-    sval f f.maxBits + sval f (ulp f f.maxBits) = ((2 ^ f.fracBits * 2 ^ (f.expMax - 1) : Nat) : Int) ∧
+    sval f f.maxBits + sval f (ulpOld f f.maxBits) = ((2 ^ f.fracBits * 2 ^ (f.expMax - 1) : Nat) : Int) ∧
     ∀ y, isFiniteBits f y = true → sval f y < ((2 ^ f.fracBits * 2 ^ (f.expMax - 1) : Nat) : Int) := by
   have hF := F_ge2 f h
   have hinf := infBits_add f h
@@ -765,7 +765,7 @@ theorem ulp_next_max' (f : Fmt) (h : WF f) :
 /-- `x < 0` normal, above `-max`: the exact difference `x - ulp x` is the value of the lower neighbour -/
 theorem ulp_prev' (f : Fmt) (h : WF f) (x : Nat) (hx : x < 2 ^ f.width) (hfin : isFiniteBits f x = true)
     (hlt0 : pyLt0 f x = true) (hn : f.minNormalBits ≤ magBits f x) :
-    sval f (nextDown f x) = sval f x - sval f (ulp f x) := by
+    sval f (nextDown f x) = sval f x - sval f (ulpOld f x) := by
   have hF := F_ge2 f h
   have hinf := infBits_add f h
   have hw := width_eq f h
@@ -792,11 +792,11 @@ theorem ulp_prev' (f : Fmt) (h : WF f) (x : Nat) (hx : x < 2 ^ f.width) (hfin : 
 
 /-- every subnormal (either sign): `ulp` returns `+0`, so `x ± ulp x = x` is not the neighbour -/
 theorem ulp_subnormal (f : Fmt) (h : WF f) (x : Nat) (hx : x < 2 ^ f.width)
-    (h0 : magBits f x ≠ 0) (hs : magBits f x < f.minNormalBits) : ulp f x = 0 := by
+    (h0 : magBits f x ≠ 0) (hs : magBits f x < f.minNormalBits) : ulpOld f x = 0 := by
   rw [ulp_abs f h x hx]; exact ulp_sub_zero f h _ h0 hs
 
-theorem ulp_inf' (f : Fmt) (b : Nat) (hb : (decode f b).isInf = true) : ulp f b = f.infBits := by
-  unfold ulp
+theorem ulp_inf' (f : Fmt) (b : Nat) (hb : (decode f b).isInf = true) : ulpOld f b = f.infBits := by
+  unfold ulpOld
   cases hd : decode f b <;> simp [hd, V.isInf, V.isZero] at hb ⊢
 
 theorem decode_nanBits (f : Fmt) (h : WF f) : decode f (nanBits f) = .nan := by
@@ -812,9 +812,9 @@ theorem decode_nanBits (f : Fmt) (h : WF f) : decode f (nanBits f) = .nan := by
   simp only [fields_e f h, fields_m f h, magBits_of_lt f _ hlt, hu.1, hu.2, if_true]
   rw [if_neg (by omega)]
 
-theorem ulp_nan' (f : Fmt) (h : WF f) (b : Nat) (hb : (decode f b).isNaN = true) : isNaNBits f (ulp f b) = true := by
-  have : ulp f b = nanBits f := by
-    unfold ulp
+theorem ulp_nan' (f : Fmt) (h : WF f) (b : Nat) (hb : (decode f b).isNaN = true) : isNaNBits f (ulpOld f b) = true := by
+  have : ulpOld f b = nanBits f := by
+    unfold ulpOld
     cases hd : decode f b <;> simp [hd, V.isNaN, V.isZero, V.isInf] at hb ⊢
   rw [this]; unfold isNaNBits; rw [decode_nanBits f h]; rfl
 
@@ -913,6 +913,10 @@ theorem chain_list (f : Fmt) (h : WF f) (fl : Option Bool) : ∀ (l : List Nat) 
 
 /-! ### the repaired `ulp` satisfies the identities on subnormals too -/
 
+/-- bridge: the pre-fix function plus the one branch added by the fix -/
+def ulpRepaired (f : Fmt) (b : Nat) : Nat :=
+  if magBits f b ≠ 0 ∧ magBits f b < f.minNormalBits then 1 else ulpOld f b
+
 theorem magVal_le_F (f : Fmt) (a : Nat) (ha : a ≤ 2 ^ f.fracBits) : magVal f a = a := by
   have hF := F_pos f
   rcases Nat.lt_or_eq_of_le ha with hlt | heq
@@ -942,5 +946,121 @@ theorem ulp_next_repaired' (f : Fmt) (h : WF f) (x : Nat) (hx : x < 2 ^ f.width)
   · have hcls : magBits f x = 0 ∨ f.minNormalBits ≤ magBits f x := by omega
     unfold ulpRepaired; rw [if_neg hsub]
     exact ulp_next' f h x hx hfin hge hcls hmax
+
+/-! ### the current `ulp` (with the subnormal branch of d4402b6) is the repaired function -/
+
+theorem finite_iff_class (f : Fmt) (b : Nat) :
+    isFiniteBits f b = true ↔ ((decode f b).isInf = false ∧ (decode f b).isNaN = false) := by
+  unfold isFiniteBits decode
+  simp only [bne_iff_ne, ne_eq]
+  by_cases he : (fields f b).e = f.expMax
+  · simp only [he, not_true_eq_false, if_true, false_iff]
+    split <;> simp [V.isInf, V.isNaN]
+  · simp only [he, not_false_eq_true, if_false, true_iff]
+    split <;> simp [V.isInf, V.isNaN]
+
+theorem ulp_eq_repaired (f : Fmt) (h : WF f) (b : Nat) (hb : b < 2 ^ f.width) : ulp f b = ulpRepaired f b := by
+  have h3 := minNormal_le_inf f h
+  have hF := F_pos f
+  have hmn : f.minNormalBits = 2 ^ f.fracBits := rfl
+  unfold ulpRepaired
+  by_cases c1 : (decode f b).isZero = true
+  · have e1 : ulp f b = 1 := by unfold ulp; simp [c1]
+    have e2 : ulpOld f b = 1 := by unfold ulpOld; simp [c1]
+    rw [e1, e2]; split <;> rfl
+  · by_cases hfin : isFiniteBits f b = true
+    · obtain ⟨c2, c3⟩ := (finite_iff_class f b).1 hfin
+      obtain ⟨hz, hi, hn⟩ := decode_mag f h b
+      have hne : magBits f b ≠ 0 := by
+        intro h0; apply c1; rw [hz, h0, decode_zero f h]; rfl
+      have hnanb : isNaNBits f b = false := c3
+      rcases sign_mag_cases f h b hb with ⟨hs, hmag, hlt⟩ | ⟨hs, hmag, hlt⟩
+      · have hlt0 : pyLt0 f b = false := by unfold pyLt0; simp [hs]
+        have e1 : ulp f b = ulpTail f b := by unfold ulp; simp [c1, c2, c3, hlt0]
+        have e2 : ulpOld f b = ulpPos f b := by unfold ulpOld; simp [c1, c2, c3, hlt0]
+        rw [e1, e2]; unfold ulpTail pyLtMinNormal
+        rw [hnanb, hs]
+        by_cases hsub : magBits f b < f.minNormalBits <;> simp [hsub, hne]
+      · have hlt0 : pyLt0 f b = true := by unfold pyLt0; simp [hnanb, hs, hne]
+        have hneg : negBits f b = magBits f b := by unfold negBits; simp [hs]
+        have e1 : ulp f b = ulpTail f (magBits f b) := by unfold ulp; simp [c1, c2, c3, hlt0, hneg]
+        have e2 : ulpOld f b = ulpPos f (magBits f b) := by unfold ulpOld; simp [c1, c2, c3, hlt0, hneg]
+        have hnana : isNaNBits f (magBits f b) = false := by unfold isNaNBits; rw [← hn]; exact c3
+        rw [e1, e2]; unfold ulpTail pyLtMinNormal
+        rw [hnana, sign_of_lt f _ hlt, magBits_idem]
+        by_cases hsub : magBits f b < f.minNormalBits <;> simp [hsub, hne]
+    · have hm : ¬ magBits f b < f.infBits := fun hlt => hfin ((finite_iff f h b).2 hlt)
+      rw [if_neg (by omega)]
+      have hcl : ¬ ((decode f b).isInf = false ∧ (decode f b).isNaN = false) := fun hc => hfin ((finite_iff_class f b).2 hc)
+      by_cases c2 : (decode f b).isInf = true
+      · unfold ulp ulpOld; simp [c1, c2]
+      · have c3 : (decode f b).isNaN = true := by
+          cases hn : (decode f b).isNaN
+          · exact absurd ⟨by simpa using c2, hn⟩ hcl
+          · rfl
+        unfold ulp ulpOld; simp [c1, c2, c3]
+
+theorem ulp_of_normal (f : Fmt) (h : WF f) (x : Nat) (hx : x < 2 ^ f.width)
+    (hcls : magBits f x = 0 ∨ f.minNormalBits ≤ magBits f x) : ulp f x = ulpOld f x := by
+  rw [ulp_eq_repaired f h x hx]; unfold ulpRepaired; rw [if_neg (by omega)]
+
+theorem ulp_of_subnormal (f : Fmt) (h : WF f) (x : Nat) (hx : x < 2 ^ f.width)
+    (h0 : magBits f x ≠ 0) (hs : magBits f x < f.minNormalBits) : ulp f x = 1 := by
+  rw [ulp_eq_repaired f h x hx]; unfold ulpRepaired; rw [if_pos ⟨h0, hs⟩]
+
+theorem ulp_neg_new (f : Fmt) (h : WF f) (b : Nat) (hb : b < 2 ^ f.width) : ulp f (negBits f b) = ulp f b := by
+  obtain ⟨hnb, hm, _⟩ := negBits_spec f h b hb
+  rw [ulp_eq_repaired f h _ hnb, ulp_eq_repaired f h b hb]
+  unfold ulpRepaired; rw [hm, ulp_neg' f h b hb]
+
+theorem ulp_inf_new (f : Fmt) (b : Nat) (hb : (decode f b).isInf = true) : ulp f b = f.infBits := by
+  unfold ulp
+  cases hd : decode f b <;> simp [hd, V.isInf, V.isZero] at hb ⊢
+
+theorem ulp_nan_new (f : Fmt) (h : WF f) (b : Nat) (hb : (decode f b).isNaN = true) : isNaNBits f (ulp f b) = true := by
+  have : ulp f b = nanBits f := by
+    unfold ulp
+    cases hd : decode f b <;> simp [hd, V.isNaN, V.isZero, V.isInf] at hb ⊢
+  rw [this]; unfold isNaNBits; rw [decode_nanBits f h]; rfl
+
+/-- every finite `x ≥ 0` below max: the exact sum `x + ulp x` is the value of the upper neighbour -/
+theorem ulp_next_full (f : Fmt) (h : WF f) (x : Nat) (hx : x < 2 ^ f.width) (hfin : isFiniteBits f x = true)
+    (hge : pyLt0 f x = false) (hmax : x ≠ f.maxBits) :
+    sval f (nextUp f x) = sval f x + sval f (ulp f x) := by
+  rw [ulp_eq_repaired f h x hx]; exact ulp_next_repaired' f h x hx hfin hge hmax
+
+/-- every finite `x < 0`: the exact difference `x − ulp x` is the value of the lower neighbour -/
+theorem ulp_prev_full (f : Fmt) (h : WF f) (x : Nat) (hx : x < 2 ^ f.width) (hfin : isFiniteBits f x = true)
+    (hlt0 : pyLt0 f x = true) :
+    sval f (nextDown f x) = sval f x - sval f (ulp f x) := by
+  have hmn : f.minNormalBits = 2 ^ f.fracBits := rfl
+  by_cases hn : f.minNormalBits ≤ magBits f x
+  · rw [ulp_of_normal f h x hx (Or.inr hn)]; exact ulp_prev' f h x hx hfin hlt0 hn
+  · have hF := F_ge2 f h
+    have hinf := infBits_add f h
+    have h3 := minNormal_le_inf f h
+    have hw := width_eq f h
+    have hs : (fields f x).sign = true := by
+      unfold pyLt0 at hlt0; simp at hlt0; exact hlt0.1.2
+    have hne : magBits f x ≠ 0 := by
+      unfold pyLt0 at hlt0; simp at hlt0; exact hlt0.2
+    have hneg : negBits f x = magBits f x := by unfold negBits; simp [hs]
+    have hltS := magBits_lt f h x
+    have hnu : nextUp f (magBits f x) = magBits f x + 1 := by unfold nextUp; simp [sign_of_lt f _ hltS]
+    have hlt1 : magBits f x + 1 < f.signBit := by omega
+    have hnd : nextDown f x = magBits f x + 1 + f.signBit := by
+      unfold nextDown; rw [hneg, hnu]; unfold negBits; simp [sign_of_lt f _ hlt1]
+    have hb2 : magBits f x + 1 + f.signBit < 2 ^ f.width := by omega
+    have hsv : sval f (magBits f x + 1 + f.signBit) = -(magVal f (magBits f x + 1) : Int) := by
+      rcases sign_mag_cases f h _ hb2 with ⟨_, _, hlt2⟩ | ⟨hs2, hmag2, _⟩
+      · omega
+      · unfold sval; rw [hs2]
+        have : magBits f (magBits f x + 1 + f.signBit) = magBits f x + 1 := by omega
+        rw [this]; simp
+    have hsx : sval f x = -(magVal f (magBits f x) : Int) := by unfold sval; rw [hs]; simp
+    have hsv1 : sval f 1 = 1 := by rw [sval_of_lt f 1 (by omega), magVal_small f 1 (by omega)]; rfl
+    rw [hnd, hsv, hsx, ulp_of_subnormal f h x hx hne (by omega), hsv1,
+      magVal_le_F f _ (by omega), magVal_le_F f _ (by omega)]
+    push_cast; omega
 
 end FAVerif.Ulp
